@@ -50,7 +50,9 @@ ASSUMPTIONS = [
     "variables whose partners are all NaN must give mean/std NaN and number "
     "0 (what a NaN-ignoring mean of nothing is in numpy)",
     "custom collapsers are called as f(matrix, axis) and must ignore NaN "
-    "padding themselves (numpy.nanmax is used)",
+    "padding themselves (numpy.nanmax / nanmin, and matrix[0] - a view of "
+    "the matrix, the values of one partner of each reference point - are "
+    "used)",
     "collocate() results that are None are skipped and counted (no "
     "collocations, or a single collocation lost by the .any() emptiness "
     "tests: both belong to C04); the points of the real part stay 20 % "
@@ -138,6 +140,9 @@ def check_collapse(ds, snap):
         (snap.names[0], 0, None),
         (snap.names[0], 0, {"mean": (lambda m, a: np.nanmin(m, axis=a),
                                      "min")}),
+        # a collapser whose result is a VIEW of the matrix it was given (the
+        # first row: one partner of every reference point)
+        (snap.names[0], 0, {"one": (lambda m, a: m[0], "one")}),
         (snap.names[1], 1, None),
     ]
     for reference, side, custom in variants:
